@@ -358,12 +358,12 @@ def programs(tier, seed):
 def obligations(tier, seed):
     obs = []
     q = tier == 'quick'
-    b = 150 if q else 900
+    b = 150 if q else 600
     for kind, d in programs(tier, seed):
         br = C.branching(d)
         for n in ((1, 2, 3) if q else (1, 2, 3, 4)):
             g = 2 if (q or n < 3) else 3
-            if (g * br) ** n > (300 if q else 1500):
+            if (g * br) ** n > (300 if q else 700):
                 continue
             obs.append(Ob(PROP, 'grouped', dict(desc=d, n=n, g=g), budget=b, group='grouped:' + kind, bound=dict(items=n, groups=g, pipeline=C.show(d))))
         nr = 3 if q else (5 if br == 1 else 4)
